@@ -18,10 +18,20 @@ import random
 from harness import core
 from harness.core import to_dec
 
-UNITS = ['J/mol/K', 'cal/mol/K', 'kJ/mol/K', 'eV/K', 'kcal/mol/K', 'L atm/mol/K']
+# every Shomate fitting unit (the keys of constants.R that end in /K)
+UNITS = ['J/mol/K', 'cal/mol/K', 'kJ/mol/K', 'eV/K', 'kcal/mol/K', 'L atm/mol/K', 'Eh/K', 'Ha/K', 'L kPa/mol/K',
+         'cm3 kPa/mol/K', 'm3 Pa/mol/K', 'cm3 MPa/mol/K', 'm3 bar/mol/K', 'L bar/mol/K', 'L torr/mol/K',
+         'cm3 atm/mol/K']
 
 
-def _poly_coeffs(rnd, fam):
+def _poly_coeffs(rnd, fam, scale=1.0):
+    """scale != 1 (Shomate only): coefficients of a physical species expressed in the fitting unit (Cp/R of a
+    few units whatever the unit), with a 1/t^2 coefficient anywhere between 1e-3 and 1 J/mol/K"""
+    if fam == 'shomate' and scale != 1.0:
+        e = rnd.choice([-1, 1]) * 10 ** rnd.uniform(-3, 0)
+        a = [rnd.uniform(20, 40)] + [rnd.uniform(-10, 10) for _ in range(3)] + [e] + \
+            [rnd.uniform(-50, 50), rnd.uniform(100, 200), 0.0]
+        return [x * scale for x in a]
     if fam == 'nasa7':
         return [rnd.uniform(2, 6)] + [rnd.uniform(-1, 1) * 1000.0 ** -p for p in (1, 2, 3, 4)] + \
                [rnd.uniform(-3e3, 3e3), rnd.uniform(-5, 5)]
@@ -91,6 +101,11 @@ def execute(case):
     rnd = random.Random(case['cseed'])
     fam, src, nseg, route = case['fam'], case['src'], case['nseg'], case['route']
     units = UNITS[case['cseed'] % len(UNITS)]
+    from pmutt import constants as _c
+    if fam == 'shomate' and case['cseed'] % 8 < 2:
+        units = ('Eh/K', 'Ha/K')[case['cseed'] % 8]          # the smallest units: R = 3.2e-6, a quarter of the Shomate cases
+    scale = _c.R(units) / _c.R('J/mol/K') if fam == 'shomate' and (units in ('Eh/K', 'Ha/K')
+                                                                  or (case['cseed'] // len(UNITS)) % 2 == 0) else 1.0
     T_low = rnd.uniform(100, 600)
     T_high = rnd.uniform(max(1200.0, T_low + 800), 3000)
     if src.startswith('statmech'):
@@ -124,15 +139,15 @@ def execute(case):
     model = None
     href = sref = None
     if src == 'poly':
-        a = _poly_coeffs(rnd, fam)
+        a = _poly_coeffs(rnd, fam, scale)
         pieces = [a] * (len(edges) - 1)
     elif src == 'piecewise':
-        pieces = [_poly_coeffs(rnd, fam) for _ in range(len(edges) - 1)]
+        pieces = [_poly_coeffs(rnd, fam, scale) for _ in range(len(edges) - 1)]
     elif src == 'const':
         cval = rnd.uniform(1.5, 9)
         z = {'nasa7': [cval, 0, 0, 0, 0, rnd.uniform(-3e3, 3e3), rnd.uniform(-5, 5)],
              'nasa9': [0, 0, cval, 0, 0, 0, 0, rnd.uniform(-3e3, 3e3), rnd.uniform(-5, 5)],
-             'shomate': [cval * 8.0, 0, 0, 0, 0, rnd.uniform(-50, 50), rnd.uniform(100, 200), 0]}[fam]
+             'shomate': [x * scale for x in [cval * 8.0, 0, 0, 0, 0, rnd.uniform(-50, 50), rnd.uniform(100, 200), 0]]}[fam]
         pieces = [z] * (len(edges) - 1)
     elif src == 'zero':
         z = {'nasa7': [0] * 5 + [rnd.uniform(-3e3, 3e3), rnd.uniform(-5, 5)],
@@ -177,7 +192,11 @@ def execute(case):
         guesses = [brk[0]]
         if case['tmid'] == 'list':
             k = rnd.random()
-            if k < 0.35:                             # an edge guess (within the lowest data points) first
+            # an edge guess (within the lowest data points) first - only for smooth model sources: with fewer than
+            # five points the low segment's quartic is not determined by the data, so "reproduces the generating
+            # polynomial" cannot be demanded of any fit if that guess is taken (a false alarm of an earlier version:
+            # seed 3, ExactRecoveryH/S 2e-4 with T_mid on the second data point)
+            if k < 0.35 and model is not None:
                 guesses = [float(T[rnd.randrange(1, 4)]), brk[0], float(T[rnd.randrange(npts // 2, npts - 10)])]
             elif k < 0.7:                            # several interior guesses, ascending
                 guesses = sorted({float(T[rnd.randrange(10, npts - 10)]) for _ in range(3)})
